@@ -143,7 +143,7 @@ Definition handle_receipt (s : hstate) (r : receipt) (has_id : bool) : hstate * 
     match om with
     | None => (s1, [HReceipt (rc_uid r) 0])
     | Some m =>
-      let '(c2, oss, code) := get_segmented c1 (sm_seq m) true in
+      let '(c2, oss, code) := if is_segment m then get_segmented c1 (sm_seq m) true else (c1, None, 0) in
       let s2 := {| h_corr := c2; h_deliv := d1; h_next := h_next s; h_thr := h_thr s; h_nonthr := h_nonthr s; h_rlog := h_rlog s |} in
       match oss with
       | Some ss =>
